@@ -99,7 +99,8 @@ class Doc(object):
     cols = [c for c in self.e.schema[t].columns if c != "id"]
     if not helpers:
       cols = [c for c in cols if not c.startswith("gristHelper_")]
-    return cols
+    # manualSort last, so that "the first columns" are the user's columns
+    return [c for c in cols if c != "manualSort"] + [c for c in cols if c == "manualSort"]
 
   def row_ids(self, t):
     return list(self.e.fetch_table(t, formulas=False).row_ids)
@@ -301,40 +302,66 @@ class Saved(object):
 # ---------------------------------------------------------------------------------------------
 # action templates whose holes are solver variables
 
+# a conditional self-join: only row 1 performs the lookup, so the lookup index is created in the
+# middle of evaluating one cell (the shape incremental-recalculation bugs hide behind)
+LOOK = "len({T}.lookupRecords({c0}={C0})) if $id == 1 else 0"
+LOOK1 = "len({T}.lookupRecords({c1}={C1})) if $id == 1 else 0"
+
+
+def _fill(f, t, t0, cols):
+  c0 = cols[0] if cols else "id"
+  c1 = cols[1] if len(cols) > 1 else c0
+  return (f.replace("{T0}", t0).replace("{T}", t).replace("{C0}", "$" + c0).replace("{c0}", c0)
+          .replace("{C1}", "$" + c1).replace("{c1}", c1))
+
+
+def _val(v, d, t, c, row):
+  """'{DUP}' = the value the same column holds in another row (makes the edited row join that key)"""
+  if v != "{DUP}":
+    return v
+  data = d.e.fetch_table(t, formulas=False)
+  if c not in data.columns:
+    return "x"
+  for r, x in zip(data.row_ids, data.columns[c]):
+    if r != row:
+      return enc(x)
+  return "x"
+
+
 class Pools(object):
   FULL = dict(
     names=["Name", "Z", "def", "n", "a b", "", "K", "id", "T"],
     types=["Text", "Int", "Numeric", "Bool", "Any", "Choice", "ChoiceList", "Ref:{T0}", "RefList:{T0}",
            "Date", "DateTime:UTC"],
-    vals=["x", "", None, 0, 5, 1.5, True, ["L", 1], ["L", 2, 1], "2020-01-02", -1],
+    vals=["x", "", None, 0, 5, 1.5, True, ["L", 1], ["L", 2, 1], "2020-01-02", -1, "{DUP}"],
     rows=["first", "last", "absent", "zero", "neg"],
-    formulas=["1", "$id * 2", "rec.id +", "{C0}", "[r.id for r in {T0}.all]"],
+    formulas=["1", "$id * 2", "rec.id +", "{C0}", "[r.id for r in {T0}.all]", LOOK, LOOK1],
   )
   SMALL = dict(
     names=["Z", "def", "K"],
     types=["Text", "Numeric", "ChoiceList", "RefList:{T0}"],
-    vals=["x", None, 2, ["L", 1, 2]],
+    vals=["x", None, 2, ["L", 1, 2], "{DUP}"],
     rows=["first", "last", "absent"],
-    formulas=["$id * 2", "{C0}"],
+    formulas=["$id * 2", "{C0}", LOOK, LOOK1],
   )
 
   MED = dict(
     names=["Name", "Z", "def", "a b", "", "K"],
     types=["Text", "Int", "Numeric", "Bool", "Any", "ChoiceList", "Ref:{T0}", "RefList:{T0}", "Date"],
-    vals=["x", "", None, 0, 5, 1.5, True, ["L", 2, 1], "2020-01-02"],
+    vals=["x", "", None, 0, 5, 1.5, True, ["L", 2, 1], "2020-01-02", "{DUP}"],
     rows=["first", "last", "absent", "neg"],
-    formulas=["$id * 2", "rec.id +", "{C0}"],
+    formulas=["$id * 2", "rec.id +", "{C0}", LOOK, LOOK1],
   )
   TINY = dict(
     names=["Z", "K"],
     types=["Text", "RefList:{T0}"],
     vals=["x", 2],
     rows=["last", "absent"],
-    formulas=["{C0}"],
+    formulas=["{C0}", LOOK, LOOK1],
     max_tables=2, max_cols=3,
   )
   MICRO = dict(
-    names=["Z"], types=["Text", "Numeric"], vals=["x", 2], rows=["last", "absent"], formulas=["{C0}"],
+    names=["Z"], types=["Text", "Numeric"], vals=["x", 2, "{DUP}"], rows=["last", "absent"], formulas=["{C0}", LOOK, LOOK1],
     max_tables=1, max_cols=2,
   )
   max_tables = None
@@ -383,10 +410,10 @@ def gen_action(h, d, pfx, pools):
   t = h.choice(pfx + "table", tables)
   cols = d.columns(t)
   if pools.max_cols and len(cols) > pools.max_cols:
-    # keep the first data columns and the first formula column
+    # keep the first max_cols data columns and the first formula column
     sc = d.e.schema[t].columns
     fcols = [c for c in cols if sc[c].isFormula][:1]
-    cols = [c for c in cols if c not in fcols][:pools.max_cols - len(fcols)] + fcols
+    cols = [c for c in cols if not sc[c].isFormula][:pools.max_cols] + fcols
   if kind == "ReplaceTableData":
     rows = d.row_ids(t)
     shape = h.choice(pfx + "shape", ["overlap", "fresh", "empty"])
@@ -403,13 +430,13 @@ def gen_action(h, d, pfx, pools):
   if kind == "AddRecord":
     if h.bool(pfx + "withval") and cols:
       c = h.choice(pfx + "col", cols)
-      return ["AddRecord", t, None, {c: h.choice(pfx + "val", pools.vals)}]
+      return ["AddRecord", t, None, {c: _val(h.choice(pfx + "val", pools.vals), d, t, c, None)}]
     return ["AddRecord", t, None, {}]
   if kind == "BulkAddRecord":
     ids = h.choice(pfx + "ids", [[None, None], [None, -1], [-1, -2], [(max(d.row_ids(t) or [0]) + 3)]])
     if h.bool(pfx + "withval") and cols:
       c = h.choice(pfx + "col", cols)
-      v = h.choice(pfx + "val", pools.vals)
+      v = _val(h.choice(pfx + "val", pools.vals), d, t, c, None)
       return ["BulkAddRecord", t, ids, {c: [v] * len(ids)}]
     return ["BulkAddRecord", t, ids, {}]
   if kind == "RemoveRecord":
@@ -431,7 +458,7 @@ def gen_action(h, d, pfx, pools):
       ty = h.choice(pfx + "type", pools.types).replace("{T0}", t0)
       return ["AddColumn", t, name, {"type": ty, "isFormula": False}]
     if shape == "formula":
-      f = h.choice(pfx + "formula", pools.formulas).replace("{T0}", t0).replace("{C0}", "$" + cols[0] if cols else "1")
+      f = _fill(h.choice(pfx + "formula", pools.formulas), t, t0, cols)
       return ["AddColumn", t, name, {"type": "Any", "isFormula": True, "formula": f}]
     return ["AddColumn", t, name, {"type": "Int", "isFormula": False, "formula": "$id + 1",
                                    "recalcWhen": h.choice(pfx + "when", [0, 1, 2])}]
@@ -444,11 +471,12 @@ def gen_action(h, d, pfx, pools):
     cols = [x for x in cols if x != "manualSort" and not (x == "group" and t in d.summary_tables())] or cols
   c = h.choice(pfx + "col", cols)
   if kind == "UpdateRecord":
-    return ["UpdateRecord", t, _row(h, pfx, d, t, pools), {c: h.choice(pfx + "val", pools.vals)}]
+    row = _row(h, pfx, d, t, pools)
+    return ["UpdateRecord", t, row, {c: _val(h.choice(pfx + "val", pools.vals), d, t, c, row)}]
   if kind == "BulkUpdateRecord":
     rows = d.row_ids(t)[:2]
-    v1 = h.choice(pfx + "val", pools.vals)
-    v2 = h.choice(pfx + "val2", Pools.SMALL["vals"])
+    v1 = _val(h.choice(pfx + "val", pools.vals), d, t, c, rows[0] if rows else None)
+    v2 = _val(h.choice(pfx + "val2", Pools.SMALL["vals"]), d, t, c, rows[-1] if rows else None)
     return ["BulkUpdateRecord", t, rows, {c: [v1, v2][:len(rows)]}]
   if kind == "RemoveColumn":
     return ["RemoveColumn", t, c]
@@ -461,7 +489,7 @@ def gen_action(h, d, pfx, pools):
     shape = h.choice(pfx + "shape", ["toData", "toFormula", "newFormula"])
     if shape == "toData":
       return ["ModifyColumn", t, c, {"isFormula": False}]
-    f = h.choice(pfx + "formula", pools.formulas).replace("{T0}", t0).replace("{C0}", "$" + cols[0])
+    f = _fill(h.choice(pfx + "formula", pools.formulas), t, t0, cols)
     if shape == "toFormula":
       return ["ModifyColumn", t, c, {"isFormula": True, "formula": f}]
     return ["ModifyColumn", t, c, {"formula": f}]
@@ -480,7 +508,7 @@ def gen_action(h, d, pfx, pools):
     if field == "isFormula":
       return ["UpdateRecord", "_grist_Tables_column", ref, {"isFormula": h.bool(pfx + "flag")}]
     if field == "formula":
-      f = h.choice(pfx + "formula", pools.formulas).replace("{T0}", t0).replace("{C0}", "$" + cols[0])
+      f = _fill(h.choice(pfx + "formula", pools.formulas), t, t0, cols)
       return ["UpdateRecord", "_grist_Tables_column", ref, {"formula": f}]
     if field == "recalcWhen":
       return ["UpdateRecord", "_grist_Tables_column", ref, {"recalcWhen": h.choice(pfx + "when", [0, 1, 2])}]
@@ -725,3 +753,210 @@ def run_bundle_oracles(d, bundle, want, fault=None):
       if r:
         out.append(("C03", "after redo: " + r))
   return True, out
+
+
+# ---------------------------------------------------------------------------------------------
+# invariants for C09 C10 C11 C12 (evaluated after successful bundles)
+
+META_REFS = []
+for _a in schema.schema_create_actions():
+  for _c in _a.columns:
+    _ty = _c["type"]
+    if _ty.startswith("Ref:") or _ty.startswith("RefList:"):
+      META_REFS.append((_a.table_id, _c["id"], _ty.split(":")[1], _ty.startswith("RefList")))
+
+
+def _ids_of(v):
+  v = enc(v)
+  if isinstance(v, list) and v and v[0] == "L":
+    return [x for x in v[1:] if isinstance(x, int) and not isinstance(x, bool)]
+  if isinstance(v, int) and not isinstance(v, bool) and v:
+    return [v]
+  return []
+
+
+def check_meta(e):
+  """C09: every metadata reference resolves; fields belong to their section's table; every user
+  table has exactly one metadata record and a raw section; helper columns are still used."""
+  rows = {t: set(e.fetch_table(t).row_ids) for t in e.tables if t.startswith("_grist_")}
+  for (t, c, target, is_list) in META_REFS:
+    if t not in e.tables:
+      continue
+    td = e.fetch_table(t)
+    if c not in td.columns:
+      continue
+    for r, v in zip(td.row_ids, td.columns[c]):
+      for i in _ids_of(v):
+        if i not in rows.get(target, ()):
+          return "%s[%s].%s -> %s[%s] does not exist" % (t, r, c, target, i)
+  tt = e.fetch_table("_grist_Tables")
+  ids = list(tt.columns["tableId"])
+  for t in e.tables:
+    if t.startswith("_grist_"):
+      continue
+    if ids.count(t) != 1:
+      return "user table %s has %d metadata records" % (t, ids.count(t))
+    if not tt.columns["rawViewSectionRef"][ids.index(t)]:
+      return "user table %s has no raw view section" % t
+  for t in ids:
+    if t not in e.tables:
+      return "metadata record for nonexistent table %s" % t
+  f = e.fetch_table("_grist_Views_section_field")
+  sct = e.fetch_table("_grist_Views_section")
+  col = e.fetch_table("_grist_Tables_column")
+  sec_table = dict(zip(sct.row_ids, sct.columns["tableRef"]))
+  col_table = dict(zip(col.row_ids, col.columns["parentId"]))
+  for r, p, cr in zip(f.row_ids, f.columns["parentId"], f.columns["colRef"]):
+    if p in sec_table and cr in col_table and sec_table[p] != col_table[cr]:
+      return "field %s: its section shows table %s but its column belongs to table %s" % (r, sec_table[p], col_table[cr])
+    if p and p not in sec_table:
+      return "field %s belongs to nonexistent section %s" % (r, p)
+  # helper columns must be referenced by a column or field (display) / rules list
+  used = set()
+  for tname, cname in (("_grist_Tables_column", "displayCol"), ("_grist_Views_section_field", "displayCol")):
+    used.update(x for x in e.fetch_table(tname).columns[cname] if x)
+  for tname in ("_grist_Tables_column", "_grist_Views_section_field", "_grist_Views_section"):
+    for v in e.fetch_table(tname).columns.get("rules", []):
+      used.update(_ids_of(v))
+  for r, cid in zip(col.row_ids, col.columns["colId"]):
+    if (cid.startswith("gristHelper_Display") or cid.startswith("gristHelper_ConditionalRule")
+        or cid.startswith("gristHelper_RowConditionalRule")) and r not in used:
+      return "helper column %s (record %s) is not used by any column, field or rule list" % (cid, r)
+  return None
+
+
+def ref_columns(e):
+  """[(table, col, target_table, is_list)] for data Ref/RefList columns of all tables"""
+  out = []
+  for t, st in e.schema.items():
+    for c, sc in st.columns.items():
+      if sc.isFormula:
+        continue
+      if sc.type.startswith("Ref:"):
+        out.append((t, c, sc.type[4:], False))
+      elif sc.type.startswith("RefList:"):
+        out.append((t, c, sc.type[8:], True))
+  return out
+
+
+def check_removed_refs(e, s0, s1, removal_only):
+  """C10: no data Ref cell points to a row removed by this bundle and no RefList contains one; for a
+  bundle made of removals only, each RefList is its previous list minus the removed ids (None if empty)"""
+  removed = {t: set(s0[t][0]) - set(s1[t][0]) if t in s1 else set(s0[t][0]) for t in s0}
+  for (t, c, target, is_list) in ref_columns(e):
+    if t not in s1 or c not in s1[t][1]:
+      continue
+    gone = removed.get(target, set())
+    if not gone:
+      continue
+    for r, v in zip(s1[t][0], s1[t][1][c]):
+      bad = [i for i in _ids_of(v) if i in gone]
+      if bad:
+        return "%s[%s].%s = %s still refers to removed %s row(s) %s" % (t, r, c, v, target, bad)
+    if removal_only and t in s0 and c in s0[t][1]:
+      old = dict(zip(s0[t][0], s0[t][1][c]))
+      for r, v in zip(s1[t][0], s1[t][1][c]):
+        if r not in old:
+          continue
+        ov = old[r]
+        if isinstance(ov, list) and ov and ov[0] == "L":
+          kept = [i for i in ov[1:] if i not in gone]
+          exp = (["L"] + kept) if kept else None
+          if not eq(v, exp) and any(i in gone for i in ov[1:]):
+            return "%s[%s].%s was %s, removed %s -> expected %s, got %s" % (t, r, c, ov, sorted(gone), exp, v)
+  return None
+
+
+def check_twoway(e):
+  """C11: for every pair of columns linked as reverses, a refers to b exactly when b refers to a"""
+  tc = e.fetch_table("_grist_Tables_column")
+  tt = e.fetch_table("_grist_Tables")
+  tid = dict(zip(tt.row_ids, tt.columns["tableId"]))
+  info = {r: (tid.get(p), c) for r, p, c in zip(tc.row_ids, tc.columns["parentId"], tc.columns["colId"])}
+  for r, rev in zip(tc.row_ids, tc.columns["reverseCol"]):
+    if not rev or rev not in info or r > rev:
+      continue
+    (ta, ca), (tb, cb) = info[r], info[rev]
+    da, db = e.fetch_table(ta), e.fetch_table(tb)
+    if ca not in da.columns or cb not in db.columns:
+      return "reverse pair %s.%s / %s.%s: column missing" % (ta, ca, tb, cb)
+    fa = {row: _ids_of(v) for row, v in zip(da.row_ids, da.columns[ca])}
+    fb = {row: _ids_of(v) for row, v in zip(db.row_ids, db.columns[cb])}
+    for a, bs in fa.items():
+      for b in bs:
+        if b in fb and a not in fb[b]:
+          return "%s[%s].%s refers to %s[%s] but %s[%s].%s = %s" % (ta, a, ca, tb, b, tb, b, cb, fb[b])
+    for b, as_ in fb.items():
+      for a in as_:
+        if a in fa and b not in fa[a]:
+          return "%s[%s].%s refers to %s[%s] but %s[%s].%s = %s" % (tb, b, cb, ta, a, ta, a, ca, fa[a])
+  return None
+
+
+def check_summaries(e):
+  """C12: every summary table is the exact group-by of its source"""
+  tt = e.fetch_table("_grist_Tables")
+  tc = e.fetch_table("_grist_Tables_column")
+  tids = list(tt.columns["tableId"])
+  for trow, tname, src in zip(tt.row_ids, tids, tt.columns["summarySourceTable"]):
+    if not src or src not in tt.row_ids:
+      continue
+    srcname = tids[tt.row_ids.index(src)]
+    gcols = [c for p, c, sc in zip(tc.columns["parentId"], tc.columns["colId"], tc.columns["summarySourceCol"])
+             if p == trow and sc]
+    if srcname not in e.tables or tname not in e.tables:
+      continue
+    st, sm = e.fetch_table(srcname), e.fetch_table(tname)
+    if any(c not in st.columns or c not in sm.columns for c in gcols) or "group" not in sm.columns:
+      return "%s: group-by columns %s not present in source and summary" % (tname, gcols)
+    srccols = {c: e.tables[srcname].get_column(c) for c in gcols}
+    expected = {}
+    for i, rid in enumerate(st.row_ids):
+      parts, ok = [], True
+      for c in gcols:
+        v = st.columns[c][i]
+        co = srccols[c]
+        if isinstance(co, (colmod.ChoiceListColumn, colmod.ReferenceListColumn)):
+          if v is None or (isinstance(v, (list, tuple)) and len(v) == 0):
+            parts.append(["" if isinstance(co, colmod.ChoiceListColumn) else 0])
+          elif isinstance(v, (list, tuple)):
+            seen = []
+            for x in v:
+              if x not in seen:
+                seen.append(x)
+            parts.append(seen)
+          elif hasattr(v, "_row_ids"):
+            seen = []
+            for x in v._row_ids:
+              if x not in seen:
+                seen.append(x)
+            parts.append(seen or [0])
+          else:
+            ok = False
+        else:
+          parts.append([int(v) if hasattr(v, "_row_id") else v])
+      if not ok:
+        continue
+      for key in itertools.product(*parts):
+        expected.setdefault(tuple(enc(k) if not isinstance(k, (int, str, type(None), float)) else k for k in key), []).append(rid)
+    got = {}
+    for i, rid in enumerate(sm.row_ids):
+      key = tuple(enc(sm.columns[c][i]) for c in gcols)
+      try:
+        if key in got:
+          return "%s has two rows with key %s" % (tname, key)
+      except TypeError:
+        return "%s row %s has an unhashable key %s" % (tname, rid, key)
+      grp = sm.columns["group"][i]
+      got[key] = list(grp._row_ids if hasattr(grp, "_row_ids") else (_ids_of(grp)))
+    try:
+      exp = {tuple(enc(x) for x in k): v for k, v in expected.items()}
+    except TypeError:
+      continue
+    if exp != got:
+      miss = [k for k in exp if k not in got]
+      extra = [k for k in got if k not in exp]
+      wrong = [k for k in exp if k in got and exp[k] != got[k]]
+      return "%s (group by %s of %s): missing keys %s, extra keys %s, wrong groups %s" % (
+        tname, gcols, srcname, miss[:3], extra[:3], [(k, exp[k], got[k]) for k in wrong[:2]])
+  return None
